@@ -58,18 +58,18 @@ theorem feed_atoms (p : Parser) (code : Nat) (param : List Nat) (atoms : List At
 
 theorem oscFinish_eq (code : Nat) (payload : List Nat) :
     oscFinish code (59 :: payload) = titleCalls code payload := by
-  simp [oscFinish, titleCalls]
+  simp [oscFinish, oscCodeEnds, titleCalls]
 
 /-- the string from the code character on, fed while the recogniser waits for the code -/
 theorem osc_body (p : Parser) (code : Nat) (atoms : List Atom) (term : List Nat)
     (hp : p.taking = false ∧ p.fsm = .oscCode)
-    (hcode : code ≠ 82 ∧ code ≠ 112 ∧ okChar code)
+    (hcode : code ≠ 82 ∧ okChar code)
     (hterm : term = [7] ∨ term = [0x9c] ∨ term = [27, 92]) :
     feed p ([code, 59] ++ payloadOf atoms ++ term) =
       ({ p with taking := true, fsm := .ground }, titleCalls code (payloadOf atoms)) := by
-  obtain ⟨c1, c2, c3, c4, c5⟩ := hcode
+  obtain ⟨c1, c3, c4, c5⟩ := hcode
   have hs : send p.useUtf8 .oscCode code = (.oscParam code [], []) := by
-    simp [send, isStr, ESC, OSC_TERMINATORS, c1, c2, c3, c4, c5]
+    simp [send, isStr, ESC, OSC_TERMINATORS, c1, c3, c4, c5]
   have h59 : okChar 59 := by decide
   simp only [List.cons_append, List.nil_append, List.append_assoc]
   rw [feed_cons_fsm p hp.1, hp.2, hs, feed_cons_fsm _ rfl]
@@ -97,7 +97,7 @@ theorem osc_title (p : Parser) (hp : Ground p) (intro : List Nat) (hi : intro = 
     feed p (intro ++ ([code, 59] ++ payloadOf atoms ++ term)) = (p, titleCalls code (payloadOf atoms)) := by
   have hpe : p = { taking := true, fsm := .ground, useUtf8 := p.useUtf8 } := by
     cases p; simp only [Parser.mk.injEq, and_true]; exact ⟨hp.1, hp.2⟩
-  have hc : code ≠ 82 ∧ code ≠ 112 ∧ okChar code := by
+  have hc : code ≠ 82 ∧ okChar code := by
     rcases hcode with e | e | e <;> subst e <;> decide
   rcases hi with e | e <;> subst e
   · simp only [List.cons_append, List.nil_append]
@@ -127,6 +127,16 @@ theorem osc_other_code (code : Nat) (param : List Nat) (h : code ≠ 48 ∧ code
     oscFinish code param = [] := by
   obtain ⟨h1, h2, h3⟩ := h
   simp [oscFinish, h1, h2, h3]
+
+/-- The code is the whole text before the first `;`: when the one-character code is followed by
+    anything but the separator (`OSC 10 ; x`, `OSC 133 ; A`, `OSC 1 x`), the string is another command
+    and has no effect - whatever its first character is. -/
+theorem osc_longer_code (code c : Nat) (rest : List Nat) (h : c ≠ 59) : oscFinish code (c :: rest) = [] := by
+  simp [oscFinish, oscCodeEnds, h]
+
+/-- e.g. `ESC ] 1 0 ; f o o BEL` and `ESC ] 1 3 3 ; A ESC \` make no listener call -/
+example : (feed Parser.init [27, 93, 49, 48, 59, 102, 111, 111, 7]).2 = [] ∧
+    (feed Parser.init [27, 93, 49, 51, 51, 59, 65, 27, 92]).2 = [] := by decide
 
 /-- no call made by an OSC string draws or moves anything: only title / icon name change -/
 theorem title_calls_frame (env : Env) (s : Screen) (t : List Nat) :
